@@ -455,6 +455,16 @@ fn main() {
     let args: Vec<String> = std::env::args().collect();
     match args.get(1).map(|s| s.as_str()) {
         Some("replay") => cmd_replay(&args[2..]),
+        Some("valtab") => {
+            let a = &args[2..];
+            let input = arg(a, "--in").expect("--in");
+            let out = arg(a, "--out").expect("--out");
+            let f = std::fs::File::open(&input).expect("input");
+            let frames: Vec<Vec<u8>> = std::io::BufReader::new(f).lines().map(|l| l.unwrap()).filter(|l| !l.trim().is_empty())
+                .map(|l| exec::bytes_of(&serde_json::from_str::<Value>(&l).unwrap())).collect();
+            let n = muxide_verif_harness::valtab::run(&out, &frames);
+            println!("{}", json!({"instances": n, "events": n, "shards": 1}));
+        }
         Some("fnlist") => {
             // explicit byte strings (one JSON array per line) through the function tables
             let a = &args[2..];
